@@ -100,6 +100,17 @@ TimeVerdict(r, o) ==
   ELSE IF Dev_SubMinDurationWraps(r, o) THEN V(FALSE, "Dev_SubMinDurationWraps", "")
   ELSE V(FALSE, "time-fold", FoldSig(r, o))
 
+\* inputs of Reduce come out unchanged; a staged reduction (clock first, bindings later) gives the direct result
+InputVerdicts(r) ==
+  LET o == r.obs IN
+  (IF Has(o, "in_after") /\ Has(o, "ast0") /\ o.in_after # o.ast0 THEN {V(FALSE, "input-mutated", "the expression given to Reduce")} ELSE {})
+  \cup (IF Has(o, "red_after") /\ Has(o, "red") /\ o.red_after # o.red THEN {V(FALSE, "input-mutated", "a reduced tree reduced again")} ELSE {})
+  \cup (IF ~Has(o, "staged") THEN {}
+        ELSE LET sg == o.staged IN
+             IF Has(sg, "panic") THEN {V(FALSE, "panic", "staged reduce")}
+             ELSE (IF sg.part_after # sg.part \/ sg.part_after2 # sg.part THEN {V(FALSE, "input-mutated", "a partially reduced tree reduced again")} ELSE {})
+                  \cup (IF Has(o, "red") /\ sg.full # o.red THEN {V(FALSE, "time-fold", "staged reduction differs from the direct one")} ELSE {}))
+
 Verdict(r) ==
   LET o == r.obs IN
   IF Has(o, "harness_panic") THEN V(FALSE, "machinery:harness-panic", "")
@@ -119,6 +130,7 @@ Step == /\ l <= Len(Trace)
         /\ LET r == Trace[l] v == Verdict(r) IN
              /\ IF v.ok THEN TRUE
                 ELSE CSVWrite("%1$s", <<ToJson([id |-> r.id, class |-> v.class, sig |-> v.sig])>>, IOEnv.VERDICT_FILE)
+             /\ \A w \in InputVerdicts(r) : CSVWrite("%1$s", <<ToJson([id |-> r.id, class |-> w.class, sig |-> w.sig])>>, IOEnv.VERDICT_FILE)
              /\ st' = [nt |-> st.nt + (IF NonTrivial(r) THEN 1 ELSE 0),
                        folded |-> st.folded + (IF Folded(r) THEN 1 ELSE 0),
                        sem |-> st.sem + (IF Has(r, "want") THEN 1 ELSE 0),
